@@ -285,6 +285,25 @@ theorem C17_limit_success_from_base (s s' : LState) (a : LAct) (h : lstep s a = 
       · rw [List.getElem?_eq_none h] at hc; cases hc
     rw [List.getElem?_append_left hj, hc] at hc'
     cases hc'; exact absurd hdone hnot
+  | callRead kind k cn =>
+    simp only [lstep, Option.some.injEq] at h; subst h
+    have hj : j < s.callers.length := by
+      rcases Nat.lt_or_ge j s.callers.length with h | h
+      · exact h
+      · rw [List.getElem?_eq_none h] at hc; cases hc
+    rw [List.getElem?_append_left hj, hc] at hc'
+    cases hc'; exact absurd hdone hnot
+  | baseCopied i =>
+    simp only [lstep] at h
+    split at h
+    · split at h
+      · cases h
+        simp only [List.getElem?_set] at hc'
+        split at hc'
+        · split at hc' <;> cases hc'; cases hdone
+        · rw [hc] at hc'; cases hc'; exact absurd hdone hnot
+      · cases h
+    · cases h
   | cancel i =>
     simp only [lstep] at h
     split at h <;> cases h
@@ -340,11 +359,129 @@ theorem C17_limit_success_from_base (s s' : LState) (a : LAct) (h : lstep s a = 
         · rename_i e; subst e
           rw [hci] at hc; cases hc
           split at hc' <;> cases hc'
-          simp only [LPc.done.injEq] at hdone; subst hdone
+          simp only [LPc.done.injEq] at hdone
+          have hr : r = none := by
+            unfold LCaller.final at hdone
+            split at hdone
+            · cases hdone
+            · rfl
+            · rfl
+          subst hr
           exact ⟨rfl, hpc⟩
         · rw [hc] at hc'; cases hc'; exact absurd hdone hnot
       · cases h
     · cases h
+
+/-- **Every entry point takes a permit**: whichever way a caller came in (`ReplicateMultiple`,
+`ReplicateSingle` or `ReplicateComposite` - the latter two as `ReplicateMultiple` of the (parent)
+digest), the only step that puts it inside `base.ReplicateMultiple` is its own `acquire`, which
+needs a free permit. -/
+theorem C17_limit_base_only_after_acquire (s s' : LState) (a : LAct) (h : lstep s a = some s') (j : Nat)
+    (c c' : LCaller) (hc : s.callers[j]? = some c) (hc' : s'.callers[j]? = some c') (hin : c'.pc = .inBase)
+    (hnot : c.pc ≠ .inBase) : a = .acquire j ∧ s.held < s.cap ∧ c.pc = .waiting ∧ c'.kind = c.kind := by
+  have hj : j < s.callers.length := by
+    rcases Nat.lt_or_ge j s.callers.length with h | h
+    · exact h
+    · rw [List.getElem?_eq_none h] at hc; cases hc
+  cases a with
+  | call ks cn =>
+    simp only [lstep, Option.some.injEq] at h; subst h
+    rw [List.getElem?_append_left hj, hc] at hc'
+    cases hc'; exact absurd hin hnot
+  | callRead kind k cn =>
+    simp only [lstep, Option.some.injEq] at h; subst h
+    rw [List.getElem?_append_left hj, hc] at hc'
+    cases hc'; exact absurd hin hnot
+  | acquire i =>
+    simp only [lstep] at h
+    split at h
+    · rename_i ci hci
+      split at h
+      · rename_i hpc
+        split at h
+        · rename_i hlt
+          cases h
+          simp only [List.getElem?_set] at hc'
+          split at hc'
+          · rename_i e; subst e
+            rw [hci] at hc; cases hc
+            split at hc' <;> cases hc'
+            all_goals first | exact ⟨rfl, hlt, hpc, rfl⟩ | (exfalso; omega)
+          · rw [hc] at hc'; cases hc'; exact absurd hin hnot
+        · cases h
+      · cases h
+    · cases h
+  | cancel i =>
+    simp only [lstep] at h
+    split at h <;> cases h
+    rename_i ci hci
+    simp only [List.getElem?_set] at hc'
+    split at hc'
+    · rename_i e; subst e; rw [hci] at hc; cases hc
+      split at hc' <;> cases hc'
+      all_goals first | exact absurd hin hnot | (exfalso; omega)
+    · rw [hc] at hc'; cases hc'; exact absurd hin hnot
+  | baseCopied i =>
+    simp only [lstep] at h
+    split at h
+    · split at h
+      · cases h
+        simp only [List.getElem?_set] at hc'
+        split at hc'
+        · split at hc' <;> cases hc'; cases hin
+        · rw [hc] at hc'; cases hc'; exact absurd hin hnot
+      · cases h
+    · cases h
+  | abort i =>
+    simp only [lstep] at h
+    split at h
+    · split at h
+      · split at h <;> cases h
+        simp only [List.getElem?_set] at hc'
+        split at hc'
+        · split at hc' <;> cases hc'; cases hin
+        · rw [hc] at hc'; cases hc'; exact absurd hin hnot
+      · cases h
+    · cases h
+  | baseEnd i r =>
+    simp only [lstep] at h
+    split at h
+    · split at h
+      · cases h
+        simp only [List.getElem?_set] at hc'
+        split at hc'
+        · split at hc' <;> cases hc'; cases hin
+        · rw [hc] at hc'; cases hc'; exact absurd hin hnot
+      · cases h
+    · cases h
+  | release i =>
+    simp only [lstep] at h
+    split at h
+    · split at h
+      · cases h
+        simp only [List.getElem?_set] at hc'
+        split at hc'
+        · split at hc' <;> cases hc'; cases hin
+        · rw [hc] at hc'; cases hc'; exact absurd hin hnot
+      · cases h
+    · cases h
+
+/-- What `ReplicateSingle` / `ReplicateComposite` of the limiting replicator return once the
+permit is back: the error of `base`, else nil iff the sink holds the object, else INTERNAL
+(`notFoundToInternalErrorHandler`). -/
+theorem C17_limit_read_result (c : LCaller) (sink : Key → Bool) (k : Key) (hk : c.keys = [k])
+    (hkind : c.kind = .single ∨ c.kind = .composite) :
+    (∀ e, c.final sink (some e) = some e) ∧
+    (sink k = true → c.final sink none = none) ∧
+    (sink k = false → c.final sink none = some ⟨internal, 0⟩) := by
+  refine ⟨fun e => ?_, fun h => ?_, fun h => ?_⟩
+  · unfold LCaller.final; cases c.kind <;> rfl
+  · unfold LCaller.final; rcases hkind with e | e <;> simp [e, hk, h]
+  · unfold LCaller.final; rcases hkind with e | e <;> simp [e, hk, h]
+
+example : ∃ s, lrun { cap := 1 } [.callRead .composite 1 false, .callRead .single 2 false, .acquire 0] = some s ∧
+    s.inBase = 1 ∧ lstep s (.acquire 1) = none :=
+  ⟨_, rfl, rfl, rfl⟩
 
 /-- **The queued replicator is serial**: at most one `base` call at any time. -/
 theorem C17_queue_serial (c : ECache) (acts : List QAct) (s : QState) (h : qrun { cache := c } acts = some s) :
